@@ -239,7 +239,7 @@ def histories(tier, rng):
     out = []
     for name, layer, atoms in A.CURATED:
         out.append({'name': name, 'layer': layer, 'atoms': list(atoms)})
-    n_random = 6 if tier == 'quick' else 40
+    n_random = 6 if tier == "quick" else 100
     eng_atoms = [a for a in A.ENGINE_ATOMS]
     for k in range(n_random):
         seq = ['setup_keys'] + [rng.choice(eng_atoms) for _ in range(rng.randint(6, 14))]
